@@ -3,6 +3,7 @@ by the bounded runtime contract of replay/mixcollator.py."""
 from pyvc.values import *  # noqa
 from pyvc.libtorch import AbsRng
 
+
 F = "kappadata/collators/kd_mix_collator.py"
 RNGT = TAbs(lambda name, idx: AbsRng(__import__("z3").Int(name + "$key")), "np-rng")
 SHUFFLE = dict(
@@ -34,4 +35,113 @@ INIT = dict(
              "implies(self.mixup_p > 0, self.mixup_alpha is not None and val(self.mixup_alpha) > 0)",
              "implies(self.cutmix_p > 0, self.cutmix_alpha is not None and val(self.cutmix_alpha) > 0)"],
 )
-CONTRACTS = [SHUFFLE, INIT]
+# the cutmix box: inside the image, and the weight handed back is exactly the retained pixel fraction
+from pyvc.libtensor import MIX_LIB
+BBOX = dict(
+    target=f"{F}::KDMixCollator.get_random_bbox", self={"rng": RNGT}, params={"h": INT, "w": INT, "lamb": TSeq(REAL, mutable=False, kind=1)},
+    lib=MIX_LIB, raises=(),
+    requires=["h >= 1 and w >= 1", "forall(lambda k: implies(0 <= k and k < len(lamb), 0 <= lamb[k] and lamb[k] <= 1))"],
+    ensures=["len(result[0]) == len(lamb) and len(result[1]) == len(lamb)",
+             # (top, left, bot, right) with 0 <= top <= bot <= h and 0 <= left <= right <= w
+             "forall(lambda k: implies(0 <= k and k < len(lamb), 0 <= result[0][k][0] and result[0][k][0] <= result[0][k][2] and result[0][k][2] <= h))",
+             "forall(lambda k: implies(0 <= k and k < len(lamb), 0 <= result[0][k][1] and result[0][k][1] <= result[0][k][3] and result[0][k][3] <= w))",
+             # retained fraction: the weight handed back is 1 - box area / image area ...
+             "forall(lambda k: implies(0 <= k and k < len(lamb), result[1][k] == 1 - ((result[0][k][2] - result[0][k][0]) * (result[0][k][3] - result[0][k][1])) / (h * w)))",
+             # ... and the box area lies between 0 and the image area (so the weight lies in [0, 1])
+             {"forall": "k", "range": "0 <= k and k < len(lamb)", "asserts": [
+                 "0 <= result[0][k][2] - result[0][k][0] and result[0][k][2] - result[0][k][0] <= h",
+                 "0 <= result[0][k][3] - result[0][k][1] and result[0][k][3] - result[0][k][1] <= w",
+                 H("(result[0][k][2] - result[0][k][0]) * (result[0][k][3] - result[0][k][1]) <= h * (result[0][k][3] - result[0][k][1])",
+                   "0 <= result[0][k][2] - result[0][k][0] and result[0][k][2] - result[0][k][0] <= h", "0 <= result[0][k][3] - result[0][k][1]"),
+                 H("h * (result[0][k][3] - result[0][k][1]) <= h * w", "result[0][k][3] - result[0][k][1] <= w", "h >= 1"),
+                 H("(result[0][k][2] - result[0][k][0]) * (result[0][k][3] - result[0][k][1]) >= 0", "0 <= result[0][k][2] - result[0][k][0]", "0 <= result[0][k][3] - result[0][k][1]"),
+                 "(result[0][k][2] - result[0][k][0]) * (result[0][k][3] - result[0][k][1]) <= h * w",
+             ]}],
+)
+# ------------------------------------------------------------------ collate, lamb_mode == "batch" (one weight / one box per batch)
+from pyvc.libtensor import BT_GHOST, mix_externals
+N = "BatchN()"
+
+
+def partner_clause(rows, orig, mix):
+    """for every shuffle mode: row i of `rows` is mix(orig(i), orig(p(i))) with p the mode's partner map"""
+    def q(pexpr, guard):
+        return f"implies({guard}, forall(lambda i: implies(0 <= i and i < {N}, SameTensor(RowOf({rows}, i), {mix.format(a=f'{orig}(i)', b=f'{orig}({pexpr})')}))))"
+    return [q("i", f"{N} == 1"),
+            q(f"(i - 1) % {N}", f"{N} > 1 and self.shuffle_mode == 'roll'"),
+            q(f"{N} - 1 - i", f"{N} > 1 and self.shuffle_mode == 'flip'"),
+            q("val(permutation)[i]", f"{N} > 1 and self.shuffle_mode == 'random'")]
+
+
+MIXUP = "TMixOf({a}, {b}, lamb[0])"
+PASTE = "TPasteOf({a}, {b}, bbox[0][0], bbox[0][1], bbox[0][2], bbox[0][3])"
+COLLATE_BATCH = dict(
+    target=f"{F}::KDMixCollator.collate", name="KDMixCollator.collate[lamb_mode=batch]",
+    self={"mixup_alpha": TOpt(REAL), "cutmix_alpha": TOpt(REAL), "mixup_p": REAL, "cutmix_p": REAL, "apply_mode": STR, "lamb_mode": STR,
+          "shuffle_mode": STR, "rng": RNGT},
+    params={"batch": VAL, "dataset_mode": VAL, "ctx": TOpt(TDict())}, ghost=BT_GHOST, lib=MIX_LIB, externals=mix_externals(),
+    merge=False,        # bbox is bound on the cutmix paths only; the clauses that name it are evaluated per path
+    raises=("AssertionError",),
+    requires=["self.lamb_mode == 'batch'", "self.apply_mode == 'batch' or self.apply_mode == 'sample'",
+              "self.shuffle_mode == 'roll' or self.shuffle_mode == 'flip' or self.shuffle_mode == 'random'",
+              "self.mixup_p >= 0 and self.cutmix_p >= 0 and self.mixup_p + self.cutmix_p == 1",
+              "implies(self.mixup_p > 0, self.mixup_alpha is not None)", "implies(self.cutmix_p > 0, self.cutmix_alpha is not None)"],
+    # witnesses: the locals lamb (the weight used, after the box adjustment for cutmix), permutation, use_cutmix, bbox, x, y
+    ensures_here=(
+        ["len(lamb) == 1 and 0 <= lamb[0] and lamb[0] <= 1"] +
+        # the label is mixed with partner p(i) and the weight lamb ...
+        partner_clause("y", "MixYRow", MIXUP) +
+        # ... the image with the same partner and the same weight (mixup) ...
+        [f"implies(not use_cutmix, {c})" for c in partner_clause("x", "MixXRow", MIXUP)] +
+        # ... or with one box of the same partner pasted, the weight being the retained pixel fraction (cutmix)
+        [f"implies(use_cutmix, {c})" for c in partner_clause("x", "MixXRow", PASTE)] +
+        ["implies(use_cutmix, 0 <= bbox[0][0] and bbox[0][0] <= bbox[0][2] and bbox[0][2] <= ImgH() and 0 <= bbox[0][1] and bbox[0][1] <= bbox[0][3] and bbox[0][3] <= ImgW())",
+         "implies(use_cutmix, lamb[0] == 1 - ((bbox[0][2] - bbox[0][0]) * (bbox[0][3] - bbox[0][1])) / (ImgH() * ImgW()))",
+         # the weight reported in the context is the weight used
+         "implies(ctx is not None, ctx['lambda'] is lamb)"]),
+)
+# ------------------------------------------------------------------ collate, lamb_mode == "sample" (one weight / box per sample)
+PM = "x2_indices[{t}]"           # the partner of sample t: the shuffled index tensor (same permutation as the labels')
+ROW_CUT = "SameTensor(RowOf(x, t), TPasteOf(MixXRow(t), MixXRow(x2_indices[t]), bbox[t][0], bbox[t][1], bbox[t][2], bbox[t][3]))"
+ROW_MIX = "SameTensor(RowOf(x, t), TMixOf(MixXRow(t), MixXRow(x2_indices[t]), lamb[t]))"
+PARTNER_IS = [f"implies({N} == 1, x2_indices[0] == 0)",
+              f"implies({N} > 1 and self.shuffle_mode == 'roll', forall(lambda i: implies(0 <= i and i < {N}, x2_indices[i] == (i - 1) % {N})))",
+              f"implies({N} > 1 and self.shuffle_mode == 'flip', forall(lambda i: implies(0 <= i and i < {N}, x2_indices[i] == {N} - 1 - i)))",
+              f"implies({N} > 1 and self.shuffle_mode == 'random', forall(lambda i: implies(0 <= i and i < {N}, x2_indices[i] == val(permutation)[i])))"]
+COLLATE_SAMPLE = dict(
+    target=f"{F}::KDMixCollator.collate", name="KDMixCollator.collate[lamb_mode=sample]",
+    self=COLLATE_BATCH["self"], params=COLLATE_BATCH["params"], ghost=BT_GHOST, lib=MIX_LIB, externals=mix_externals(),
+    raises=("AssertionError",),
+    requires=["self.lamb_mode == 'sample'"] + COLLATE_BATCH["requires"][1:] + [
+        "implies(self.mixup_p > 0, self.mixup_alpha is not None)", "implies(self.cutmix_p > 0, self.cutmix_alpha is not None)"],
+    loops={0: dict(anchor="for i in range(batch_size)", index="i", invariant=[
+        f"batch_size == {N} and len(x2_indices) == {N} and len(lamb) == {N} and len(use_cutmix) == {N}",
+        # partners are distinct, so a partner row of the clone that a later sample needs has not been touched yet
+        f"forall(lambda a, b: implies(0 <= a and a < b and b < {N}, x2_indices[a] != x2_indices[b]))",
+        f"forall(lambda t: implies(0 <= t and t < {N}, 0 <= x2_indices[t] and x2_indices[t] < {N}))",
+        f"forall(lambda t: implies(i < t and t < {N}, x2_indices[t] != x2_indices[i]))",
+        f"forall(lambda t: implies(0 <= t and t < i and use_cutmix[t], {ROW_CUT}))",
+        f"forall(lambda t: implies(0 <= t and t < i and not use_cutmix[t], {ROW_MIX}))",
+        f"forall(lambda t: implies(i <= t and t < {N}, SameTensor(RowOf(x, t), MixXRow(t))))",
+        f"forall(lambda t: implies(i <= t and t < {N}, SameTensor(RowOf(x_clone, x2_indices[t]), MixXRow(x2_indices[t]))))",
+        # the labels are not touched by the image loop
+        f"forall(lambda t: implies(0 <= t and t < {N}, SameTensor(RowOf(y, t), MixYRow(t))))",
+        f"implies(self.cutmix_p > 0, len(bbox) == {N})", f"forall(lambda t: implies(0 <= t and t < {N} and use_cutmix[t], self.cutmix_p > 0))",
+    ])},
+    ensures_here=(
+        [f"len(lamb) == {N}"] + PARTNER_IS +
+        # sample t's image: its own operation, box and weight, partner x2_indices[t] ...
+        [f"forall(lambda t: implies(0 <= t and t < {N} and use_cutmix[t], {ROW_CUT}))",
+         f"forall(lambda t: implies(0 <= t and t < {N} and not use_cutmix[t], {ROW_MIX}))"] +
+        # ... and its label: the same partner and the same weight (per shuffle mode; x2_indices[t] is that partner, see above)
+        [c.replace("lamb[0]", "lamb[i]") for c in partner_clause("y", "MixYRow", MIXUP)] + [
+         # cutmix samples: box inside the image, weight == retained pixel fraction
+         f"forall(lambda t: implies(0 <= t and t < {N} and use_cutmix[t], 0 <= bbox[t][0] and bbox[t][0] <= bbox[t][2] and bbox[t][2] <= ImgH() and "
+         f"0 <= bbox[t][1] and bbox[t][1] <= bbox[t][3] and bbox[t][3] <= ImgW()))",
+         "implies(ctx is not None, ctx['lambda'] is lamb)"]),
+)
+for _c in (BBOX, COLLATE_BATCH, COLLATE_SAMPLE):
+    _c["spec_nowrap"] = True          # symbolic spec subscripts are written under 0 <= k guards and do not wrap around
+BBOX["returns"] = TTuple([TSeq(TTuple([INT, INT, INT, INT]), mutable=False, kind=1), TSeq(REAL, mutable=False, kind=1)])
+SHUFFLE["inline"] = True          # call sites execute the body on whatever kind of batch item they pass
+CONTRACTS = [SHUFFLE, INIT, BBOX, COLLATE_BATCH, COLLATE_SAMPLE]
